@@ -538,3 +538,78 @@ func (fa Facts) SiteForm(method string, wrapper bool) (string, bool) {
 	}
 	return res, found
 }
+
+func gallinaForm(f string) string {
+	switch f {
+	case Absent:
+		return "FAbsent"
+	case StmtCtx:
+		return "FStmt"
+	case Param:
+		return "FParam"
+	case Background:
+		return "FBackground"
+	}
+	return "FUnknown"
+}
+
+func gallinaBool(b bool) string {
+	if b {
+		return "true"
+	}
+	return "false"
+}
+
+// LitTerm prints, as a C18_Model.slit, the literal to assume for a role (Role: the worst-formed literal of
+// the current source with exactly those fields; when the source has none, one that sets the fields).
+func (fa Facts) LitTerm(role string) string {
+	l, ok := fa.Role(role)
+	if !ok {
+		has := func(f string) bool { return strings.Contains(","+role+",", ","+f+",") }
+		form := "FAbsent"
+		if has("Context") {
+			form = "FStmt"
+		}
+		return fmt.Sprintf("(mk_slit %s %s %s %s)", form, gallinaBool(has("NewDB")), gallinaBool(has("Initialized")), gallinaBool(has("SkipHooks") || has("PrepareStmt")))
+	}
+	return fmt.Sprintf("(mk_slit %s %s %s %s)", gallinaForm(l.CtxForm), gallinaBool(l.NewDB == "true" || l.NewDB == "expr"), gallinaBool(l.Init), gallinaBool(l.Own()))
+}
+
+// RoleFields: the roles record of C18_Ops.v, field by field: (field, role = sorted field set of the literal)
+var RoleFields = [][2]string{
+	{"r_begin", "Context,NewDB"}, {"r_txblock", "NewDB"}, {"r_savepoint", ""},
+	{"r_assoc0", "NewDB"}, {"r_assoc1", "DisableNestedTransaction,FullSaveAssociations,SkipHooks"},
+	{"r_join0", "NewDB"}, {"r_join1", "DisableNestedTransaction,SkipHooks"}, {"r_delassoc", "NewDB"},
+	{"r_preload", "Context,Initialized,NewDB,SkipHooks"}, {"r_preload_ep", "Context,SkipHooks"},
+	{"r_am", ""}, {"r_am_save0", ""}, {"r_am_save1", ""}, {"r_am_write", ""}, {"r_am_cond", "QueryFields"},
+	{"r_save0", "Initialized"}, {"r_save1", "SkipHooks"}, {"r_foc", ""},
+	{"r_fib0", ""}, {"r_fib1", ""}, {"r_fib2", "NewDB"}, {"r_cib", ""},
+}
+
+// SiteFields: (field, driver method, inside a wrapper that passes its context parameter on?)
+var SiteFields = []struct {
+	Field, Method string
+	Wrapper       bool
+}{
+	{"s_exec", "ExecContext", false}, {"s_query", "QueryContext", false}, {"s_row", "QueryRowContext", false}, {"s_begin", "BeginTx", false},
+	{"w_prepare", "PrepareContext", true}, {"w_exec", "ExecContext", true}, {"w_query", "QueryContext", true}, {"w_row", "QueryRowContext", true}, {"w_begin", "BeginTx", true},
+}
+
+// RolesTerm prints the C18_Ops.roles record of the current source.
+func (fa Facts) RolesTerm() string {
+	var sb strings.Builder
+	sb.WriteString("(mk_roles")
+	for _, rf := range RoleFields {
+		sb.WriteString(" " + fa.LitTerm(rf[1]))
+	}
+	for _, sf := range SiteFields {
+		f, ok := fa.SiteForm(sf.Method, sf.Wrapper)
+		if !ok {
+			sb.WriteString(" FUnknown")
+		} else {
+			sb.WriteString(" " + gallinaForm(f))
+		}
+	}
+	sb.WriteString(")")
+	return sb.String()
+}
